@@ -211,7 +211,7 @@ def term(c, rep):
 
 CAPS_QUICK = {"bin": 300, "cmp": 80, "un": 40, "cmpif": 150, "cmpfi": 150, "mixif": 20, "mixfi": 20, "parse": 50,
               "rng_in": 60, "rng_idx": 60, "rng_slice": 40, "rng_slice_len": 40}
-CAPS_THOROUGH = {"bin": 8000, "cmp": 2500, "cmpif": 2500, "cmpfi": 2500, "mixif": 1200, "mixfi": 1200, "parse": 2500,
+CAPS_THOROUGH = {"bin": 6000, "cmp": 2000, "cmpif": 2500, "cmpfi": 2500, "mixif": 800, "mixfi": 800, "parse": 2000,
                  "rng_in": 2000, "rng_idx": 2000}
 
 
@@ -295,6 +295,9 @@ def run(ctx):
                 for kk, vv in c["counts"].items():
                     dist["%s/%s" % (rep, kk)] = vv
                 continue
+            if c["k"] == "uncovered":
+                ctx.broken("coverage:" + c["op"], "%s accepts numbers but the C10 harness has no oracle for it (%s); add one to uniUnary/uniList/mathUnary/mathBinary" % (c["op"], c["r"]))
+                continue
             evaluations += 1
             c["rep"] = rep
             r, w = c["r"], c["w"]
@@ -318,7 +321,7 @@ def run(ctx):
     terms, refs = [], []
     per_kind = {}
     for (rep, kind), lst in sorted(pools.items()):
-        cap = CAPS_QUICK.get(kind, 30) if quick else CAPS_THOROUGH.get(kind, 1000)
+        cap = CAPS_QUICK.get(kind, 30) if quick else CAPS_THOROUGH.get(kind, 800)
         if len(lst) > cap:
             step = len(lst) / float(cap)
             lst = [lst[int(i * step)] for i in range(cap)]
@@ -340,7 +343,7 @@ def run(ctx):
         ctx.broken("correspondence:C10.Model", "model and implementation differ on %d case(s) where the specification is met, e.g. %s" % (len(only_model), c))
     cov = {
         "evaluations": evaluations, "distinct_nontrivial": len(terms),
-        "rule": "ordered product of the boundary pool {0, +-1, +-2, +-3, +-7, +-10, +-2^31(+-1), +-2^32(+-1), +-2^53(+-1), +-2^63(+-1), +-2^64(+-1), ...} x itself x 10 binary operators x 6 comparisons, unary operators, shifts by boundary counts, seeded random magnitudes up to 2^200, ints x float pool (subnormals, +-0, +-inf, NaN, halves, neighbours of 2^31/2^32/2^53/2^63/2^64) for comparisons / mixed arithmetic / conversions, for every magnitude band 2^31..2^52 and both signs an int n against n+-0.5, n+-0.25 and the adjacent floats, for bands 2^53..2^1022 the nearest float, its neighbours and the ints adjacent to them (all six operators, both operand orders), int(string, base) on printed and corrupted literals, range/enumerate/repetition on a machine-int boundary pool, each in both Int representations; evaluations = observations checked against the math/big oracle in the harness, distinct = distinct terms additionally evaluated in Coq against C10.Model and C10.Spec",
+        "rule": "ordered product of the boundary pool {0, +-1, +-2, +-3, +-7, +-10, +-2^31(+-1), +-2^32(+-1), +-2^53(+-1), +-2^63(+-1), +-2^64(+-1), ...} x itself x 10 binary operators x 6 comparisons, unary operators, shifts by boundary counts, seeded random magnitudes up to 2^200, ints x float pool (subnormals, +-0, +-inf, NaN, halves, neighbours of 2^31/2^32/2^53/2^63/2^64) for comparisons / mixed arithmetic / conversions, for every magnitude band 2^31..2^52 and both signs an int n against n+-0.5, n+-0.25 and the adjacent floats, for bands 2^53..2^1022 the nearest float, its neighbours and the ints adjacent to them (all six operators, both operand orders), int(string, base) on printed and corrupted literals, int source literals of every radix spelling (decimal, 0x, 0X, 0o, 0O, 0b, 0B; sizes around 2^31..2^200) through the real scanner with negation / printing / int(text, 0) cross-checks, every callable member of starlark.Universe and lib/math.Module that accepts ints (enumerated at run time; abs, min, max, sorted, chr, bytes, ... and all math functions) on the boundary pool, range/enumerate/repetition on a machine-int boundary pool, each in both Int representations; evaluations = observations checked against the math/big oracle in the harness, distinct = distinct terms additionally evaluated in Coq against C10.Model and C10.Spec",
         "samples": refs[:3] + refs[len(refs) // 2: len(refs) // 2 + 2],
         "distribution": dist,
         "coq_cases_per_kind": per_kind,
